@@ -418,6 +418,12 @@ func runBridgeCase(t *testing.T, r *Rec, prop string, nops int) {
 			// store, InitGenesis.  Everything the bridge properties speak about - pool, batches, their checkpoints and
 			// confirmations' base, tax and limit settings, window usage, the oracle cursor - must come back as it was.
 			var perr string
+			if r.Rng.Intn(2) == 0 {
+				// the chain comes back after a halt longer than a batch's lifetime: the importing block's time is later
+				// (the model sees the new time with the next end-block, which then times the batches out as usual)
+				e.setBlock(e.height, e.now.Add(11*time.Minute))
+				r.Stat("op.reimport.after_halt")
+			}
 			func() {
 				defer func() {
 					if rec := recover(); rec != nil {
@@ -484,6 +490,9 @@ func runBridgeCase(t *testing.T, r *Rec, prop string, nops int) {
 			tk := 1 + r.Rng.Intn(2)
 			p := brPeriods[r.Rng.Intn(len(brPeriods))]
 			lim := sdkmath.NewInt(int64(r.Rng.Intn(2500)))
+			if r.Rng.Intn(6) == 0 {
+				lim = sdkmath.NewInt(0) // the boundary: nothing may pass from a non-exempt sender
+			}
 			exs := "-"
 			var exStr []string
 			if r.Rng.Intn(3) == 0 {
